@@ -37,8 +37,15 @@ type Case struct {
 	Format string `json:"format,omitempty"`
 }
 
-var tagKeys = []string{"highway", "building", "name"}
-var tagVals = []string{"a", "b", "c"}
+var plainKeys, plainVals = []string{"highway", "building", "name"}, []string{"a", "b", "c"}
+
+// keys and values that contain the characters a writer of keys and values must not give a meaning to: '=' inside, at the
+// end and at the start, the empty value, and strings that are each other's prefix - "k" with value "v=x" and "k=v" with
+// value "x" are two different tags
+var oddKeys, oddVals = []string{"k", "k=v", "k=", "=", "k=v=x"}, []string{"v=x", "x", "=x", "", "v", "=v=x"}
+
+// the alphabet of the case being generated (set by gen)
+var tagKeys, tagVals = plainKeys, plainVals
 
 func genTags(t *rapid.T) []Tag {
 	n := rapid.IntRange(0, 2).Draw(t, "ntags")
@@ -251,6 +258,11 @@ func remapIDs(d *Doc, f func(kind string, id int64) int64) {
 
 func gen(t *rapid.T) Case {
 	var c Case
+	tagKeys, tagVals = plainKeys, plainVals
+	if rapid.IntRange(0, 5).Draw(t, "oddalphabet") == 4 {
+		tagKeys, tagVals = oddKeys, oddVals
+	}
+	defer func() { tagKeys, tagVals = plainKeys, plainVals }()
 	if vkit.Tier() == "thorough" && rapid.IntRange(0, 499).Draw(t, "pbf") == 317 {
 		// the repository's Honolulu extract through ExtractPBF (seconds per case)
 		c.Engine = "pbf"
